@@ -130,8 +130,9 @@ Theorem b64_errors_sticky_refuted :
             snd (b64_push_all s) = Ok [102; 111; 111].
 Proof. exists [33; 90; 109; 57; 118]. vm_compute. auto. Qed.
 
+Definition okerr (t : target) : Prop := match t with Ok _ | Err _ => True | _ => False end.
 Definition good64 (d : dec64) : Prop :=
-  (d64_next d < 4 /\ exists acc, d64_target d = Ok acc) \/ d64_next d = 240.
+  (d64_next d < 4 /\ exists acc, d64_target d = Ok acc) \/ (d64_next d = 240 /\ okerr (d64_target d)).
 
 Lemma illegal_ne_trailing ch : E_illegal ch <> E_TRAILING.
 Proof. unfold E_illegal, E_TRAILING. lia. Qed.
@@ -140,24 +141,24 @@ Lemma b64_push_cases d ch : d64_next d < 4 -> (exists acc, d64_target d = Ok acc
   exists d' res, b64_push d ch = Ok (d', res) /\
     ((res = None /\ good64 d') \/
      (res = Some (E_illegal ch) /\ d' = d) \/
-     (res = Some E_TRAILING /\ d64_next d' = 4)).
+     (res = Some E_TRAILING /\ d64_next d' = 4 /\ okerr (d64_target d'))).
 Proof.
   destruct d as [[[[x0 x1] x2] x3] n t]. cbn [d64_next d64_target]. intros Hn [acc ->].
   assert (C : n = 0 \/ n = 1 \/ n = 2 \/ n = 3) by lia.
   destruct (N.eq_dec ch 61) as [->|Hc].
   - rewrite b64_push_pad by (cbn; lia). cbn [d64_next].
-    destruct C as [->|[->|[->|->]]]; cbn [N.ltb N.compare Pos.compare Pos.compare_cont].
+    destruct C as [-> | [-> | [-> | ->]]]; cbn [N.ltb N.compare Pos.compare Pos.compare_cont].
     + eexists _, _. split; [reflexivity|]. right; left. auto.
     + eexists _, _. split; [reflexivity|]. right; left. auto.
     + rewrite cont_2. eexists _, _. split; [reflexivity|]. left. split; [reflexivity|].
       left. cbn. split; [lia|eauto].
     + rewrite cont_3. cbv zeta. cbn [N.eqb Pos.eqb negb].
-      eexists _, _. split; [reflexivity|]. left. split; [reflexivity|]. right. reflexivity.
+      eexists _, _. split; [reflexivity|]. left. split; [reflexivity|]. right. split; [reflexivity|exact I].
   - rewrite b64_push_sem by (cbn; auto; lia).
     destruct (val64 ch) as [v|] eqn:V.
     2:{ eexists _, _. split; [reflexivity|]. right; left. auto. }
     pose proof (val64_lt _ _ V) as Lv.
-    destruct C as [->|[->|[->|->]]].
+    destruct C as [-> | [-> | [-> | ->]]].
     + rewrite cont_0. eexists _, _. split; [reflexivity|]. left. split; [reflexivity|].
       left. cbn. split; [lia|eauto].
     + rewrite cont_1. eexists _, _. split; [reflexivity|]. left. split; [reflexivity|].
@@ -166,7 +167,7 @@ Proof.
       left. cbn. split; [lia|eauto].
     + rewrite cont_3. cbv zeta. rewrite (ne128 v Lv). cbn [negb].
       destruct (x2 =? 128).
-      * eexists _, _. split; [reflexivity|]. right; right. auto.
+      * eexists _, _. split; [reflexivity|]. right; right. cbn. auto.
       * eexists _, _. split; [reflexivity|]. left. split; [reflexivity|].
         left. cbn. split; [lia|eauto].
 Qed.
@@ -185,7 +186,7 @@ Lemma b64_run_good s : forall d, good64 d ->
 Proof.
   induction s as [|ch r IH]; intros d G NT.
   - cbn. eauto.
-  - cbn [b64_run] in *. destruct G as [[Hn Ht]|He].
+  - cbn [b64_run] in *. destruct G as [[Hn Ht]|[He _]].
     + destruct (b64_push_cases d ch Hn Ht) as (d' & res & E & C). rewrite E in *.
       destruct (b64_run d' r) as [tr fin] eqn:R. cbn [fst snd] in *.
       destruct C as [[-> G']|[[-> ->]|[-> _]]].
@@ -202,7 +203,121 @@ Proof. left. cbn. split; [lia|eauto]. Qed.
 
 Lemma b64_finalize_no_panic d : good64 d -> no_panic (b64_finalize d).
 Proof.
-  intros [[_ [acc H]]|H]; unfold b64_finalize.
+  intros [[_ [acc H]]|[_ H]]; unfold b64_finalize.
   - rewrite H. destruct (N.land (d64_next d) b64_fin_mask =? 0); exact I.
-  - destruct (d64_target d) as [l|e|p|] eqn:T.
-Abort.
+  - destruct (d64_target d) as [l|e|p|]; try contradiction; [|exact I].
+    destruct (N.land (d64_next d) b64_fin_mask =? 0); exact I.
+Qed.
+
+Lemma push_all_snd64 s :
+  snd (b64_push_all s) =
+  match snd (b64_run b64_new s) with
+  | Ok d => match b64_finalize d with
+            | Ok l => Ok l | Err e => Err e | Panic p => Panic p | OutOfFuel => OutOfFuel end
+  | Err e => Panic 0 | Panic p => Panic p | OutOfFuel => OutOfFuel end
+  /\ fst (b64_push_all s) = fst (b64_run b64_new s).
+Proof. unfold b64_push_all. destruct (b64_run b64_new s). split; reflexivity. Qed.
+
+Theorem b64_api_total_restricted s :
+  ~ In (Some E_TRAILING) (fst (b64_push_all s)) -> no_panic (snd (b64_push_all s)).
+Proof.
+  destruct (push_all_snd64 s) as [E1 E2]. rewrite E1, E2. intros NT.
+  destruct (b64_run_good s b64_new good64_new NT) as (d' & R & G). rewrite R.
+  pose proof (b64_finalize_no_panic d' G) as F.
+  destruct (b64_finalize d'); try contradiction; exact I.
+Qed.
+
+(* errors other than IllegalChar are sticky: once a push has returned
+   TrailingInput, no later push returns Ok and finalize does not succeed
+   (it fails or, defect (a), a later push panics) *)
+Definition bad64 (d : dec64) : Prop :=
+  (d64_next d = 240 /\ d64_target d = Err E_TRAILING) \/ (d64_next d = 4 /\ okerr (d64_target d)).
+
+Lemma b64_push_at_4 d ch : d64_next d = 4 ->
+  b64_push d ch = Panic 2 \/ b64_push d ch = Ok (d, Some (E_illegal ch)).
+Proof.
+  destruct d as [[[[x0 x1] x2] x3] n t]. cbn [d64_next]. intros ->.
+  destruct (N.eq_dec ch 61) as [->|Hc].
+  - left. rewrite b64_push_pad by (cbn; lia). reflexivity.
+  - rewrite b64_push_sem by (cbn; auto; lia). destruct (val64 ch) as [v|]; [left|right]; reflexivity.
+Qed.
+
+Definition all_trailing (tr : list (option N)) : Prop := forall e, In (Some e) tr -> e = E_TRAILING.
+
+Lemma b64_run_bad s : forall d, bad64 d -> all_trailing (fst (b64_run d s)) ->
+  match snd (b64_run d s) with
+  | Ok d' => bad64 d' /\ ~ In None (fst (b64_run d s))
+  | Panic _ => ~ In None (fst (b64_run d s))
+  | _ => False
+  end.
+Proof.
+  induction s as [|ch r IH]; intros d B AT.
+  - cbn. auto.
+  - cbn [b64_run] in *. destruct B as [[Hn Ht]|[Hn Ht]].
+    + rewrite (b64_push_at_eof d ch Hn) in *.
+      specialize (IH (mk64 (d64_buf d) 240 (Err E_TRAILING)) (or_introl (conj eq_refl eq_refl))).
+      destruct (b64_run _ r) as [tr fin]. cbn [fst snd] in *.
+      assert (A : all_trailing tr) by (intros e I; apply AT; right; exact I).
+      specialize (IH A). destruct fin as [d'| |p|]; try contradiction.
+      * destruct IH as [IH1 IH2]. split; [exact IH1|]. intros [X|X]; [discriminate|auto].
+      * intros [X|X]; [discriminate|auto].
+    + destruct (b64_push_at_4 d ch Hn) as [E|E]; rewrite E in *.
+      * cbn. auto.
+      * exfalso. destruct (b64_run d r) as [tr fin]. cbn [fst] in AT.
+        apply (illegal_ne_trailing ch). apply AT. left. reflexivity.
+Qed.
+
+Lemma b64_run_sticky s : forall d, good64 d -> all_trailing (fst (b64_run d s)) ->
+  (exists e, In (Some e) (fst (b64_run d s))) ->
+  match snd (b64_run d s) with
+  | Ok d' => bad64 d'
+  | Panic _ => True
+  | _ => False
+  end.
+Proof.
+  induction s as [|ch r IH]; intros d G AT [e0 I0].
+  - cbn in I0. contradiction.
+  - cbn [b64_run] in *. destruct G as [[Hn Ht]|[He Ht]].
+    + destruct (b64_push_cases d ch Hn Ht) as (d' & res & E & C). rewrite E in *.
+      destruct C as [[-> G']|[[-> ->]|[-> [N4 OE]]]].
+      * specialize (IH d' G'). destruct (b64_run d' r) as [tr fin]. cbn [fst snd] in *.
+        apply IH.
+        -- intros e I. apply AT. right. exact I.
+        -- destruct I0 as [X|X]; [discriminate|eauto].
+      * exfalso. destruct (b64_run d r) as [tr fin]. cbn [fst] in AT.
+        apply (illegal_ne_trailing ch). apply AT. left. reflexivity.
+      * pose proof (b64_run_bad r d' (or_intror (conj N4 OE))) as B.
+        destruct (b64_run d' r) as [tr fin]. cbn [fst snd] in *.
+        assert (A : all_trailing tr) by (intros e I; apply AT; right; exact I).
+        specialize (B A). destruct fin as [d''| |p|]; try contradiction; [apply B|exact I].
+    + rewrite (b64_push_at_eof d ch He) in *.
+      pose proof (b64_run_bad r (mk64 (d64_buf d) 240 (Err E_TRAILING)) (or_introl (conj eq_refl eq_refl))) as B.
+      destruct (b64_run _ r) as [tr fin]. cbn [fst snd] in *.
+      assert (A : all_trailing tr) by (intros e I; apply AT; right; exact I).
+      specialize (B A). destruct fin as [d''| |p|]; try contradiction; [apply B|exact I].
+Qed.
+
+Lemma b64_finalize_bad d : bad64 d -> exists e, b64_finalize d = Err e.
+Proof.
+  unfold b64_finalize. intros [[Hn Ht]|[Hn Ht]].
+  - rewrite Ht. eauto.
+  - destruct (d64_target d) as [l|e|p|]; try contradiction; [|eauto].
+    rewrite Hn. cbv [b64_fin_mask]. cbn. eauto.
+Qed.
+
+Theorem b64_errors_sticky_restricted s :
+  all_trailing (fst (b64_push_all s)) ->
+  (exists e, In (Some e) (fst (b64_push_all s))) ->
+  forall l, snd (b64_push_all s) <> Ok l.
+Proof.
+  destruct (push_all_snd64 s) as [E1 E2]. rewrite E1, E2. intros AT EX l.
+  pose proof (b64_run_sticky s b64_new good64_new AT EX) as H.
+  destruct (snd (b64_run b64_new s)) as [d| |p|]; try contradiction; try discriminate.
+  destruct (b64_finalize_bad d H) as [e F]. rewrite F. discriminate.
+Qed.
+
+Example b64_sticky_nonvacuous :
+  b64_push_all [90; 103; 61; 61; 65; 65] =
+    ([None; None; None; None; Some E_TRAILING; Some E_TRAILING], Err E_TRAILING) /\
+  b64_push_all [90; 103; 61; 97] = ([None; None; None; Some E_TRAILING], Err E_SHORT).
+Proof. vm_compute. auto. Qed.
